@@ -471,7 +471,11 @@ impl TestRunnerMemoryAccessor {
 
 impl MemoryAccessor for TestRunnerMemoryAccessor {
     fn read(&mut self, address: u16, len: usize) -> Vec<u8> {
-        self.ram.read().unwrap().ram[address as usize..address as usize + len].to_vec()
+        // (the address space wraps around: the word at $ffff has its high byte at $0000)
+        let ram = self.ram.read().unwrap();
+        (0..len)
+            .map(|offset| ram.ram[(address as usize + offset) & 0xffff])
+            .collect()
     }
 
     fn write(&mut self, _address: u16, _bytes: &[u8]) {
